@@ -1,6 +1,7 @@
 package main
 
 import (
+	"os"
 	"fmt"
 	"go/token"
 	"go/types"
@@ -95,6 +96,7 @@ func (x *FnExec) call(fr *frame, n *node, in ssa.Instruction, c *ssa.CallCommon,
 			res, err = lm.apply(x, fr, n, in, c, append([]Val{recv}, args...), reach, hint)
 		} else {
 			x.trusted["default summary (interface method): "+key] = true
+			x.havocClosureArgs(st, c, reach)
 			res = x.havocVal(hint, resT, reach)
 			x.assumeResultAllocated(st, reach, res)
 		}
@@ -171,19 +173,15 @@ func (x *FnExec) staticCall(fr *frame, n *node, in ssa.Instruction, callee *ssa.
 		x.eng.ensureBuilt(callee)
 		ws := map[string]bool{}
 		x.writeSetFn(callee, ws, map[*ssa.Function]bool{})
-		allocBefore := x.heapGet(st, "$alloc", "(Array Ref Bool)")
 		for h := range ws {
 			if srt, ok := x.q.heaps[h]; ok {
-				before := x.heapGet(st, h, srt)
-				x.heapHavocCond(st, h, reach)
 				// if the callee writes this heap only through objects it allocates itself, everything that existed
-				// before the call keeps its value
+				// before the call keeps its value. The callee's own objects are then represented by refs whose
+				// cells were never constrained (the entry heap is arbitrary at such refs), so no havoc is needed.
 				if strings.HasPrefix(srt, "(Array Ref ") && x.fnWritesOnlyLocal(callee, h, map[*ssa.Function]bool{}) {
-					x.q.fresh["qv_cf"]++
-					r := fmt.Sprintf("|r?cf%d|", x.q.fresh["qv_cf"])
-					after := st.heap[h]
-					x.q.assert(fmt.Sprintf("(forall ((%s Ref)) (! (=> (select %s %s) (= (select %s %s) (select %s %s))) :pattern ((select %s %s))))", r, allocBefore, r, after, r, before, r, after, r))
+					continue
 				}
+				x.heapHavocCond(st, h, reach)
 			}
 		}
 		x.trusted["uncontracted repo callee (results arbitrary; write set havocked, except that objects existing before the call are kept where the callee only writes objects it allocates): "+funcKey(callee)] = true
@@ -191,10 +189,27 @@ func (x *FnExec) staticCall(fr *frame, n *node, in ssa.Instruction, callee *ssa.
 		x.assumeResultAllocated(st, reach, res)
 		return res, nil
 	}
-	x.trusted["default summary (dependency call: arbitrary type-valid result, no heap effect): "+shortFuncName(callee)] = true
+	x.trusted["default summary (dependency call: arbitrary type-valid result, no heap effect except the write sets of closures passed to it): "+shortFuncName(callee)] = true
+	x.havocClosureArgs(st, c, reach)
 	res := x.havocVal(hint, resT, reach)
 	x.assumeResultAllocated(st, reach, res)
 	return res, nil
+}
+
+// havocClosureArgs: a callee without model or contract may run the closures it is handed any number of times; everything
+// those closures may write (captured variables included) is havocked.
+func (x *FnExec) havocClosureArgs(st *State, c *ssa.CallCommon, reach string) {
+	ws := map[string]bool{}
+	for _, a := range c.Args {
+		if mc, ok := a.(*ssa.MakeClosure); ok {
+			x.writeSetFn(mc.Fn.(*ssa.Function), ws, map[*ssa.Function]bool{})
+		}
+	}
+	for h := range ws {
+		if _, ok := x.q.heaps[h]; ok {
+			x.heapHavocCond(st, h, reach)
+		}
+	}
 }
 
 // heapHavocCond havocs a heap (the call happens only under reach, but a fresh value is sound either way)
@@ -586,6 +601,11 @@ func (x *FnExec) appendOp(fr *frame, n *node, in ssa.Instruction, c *ssa.CallCom
 	x.q.assert(x.cmp(">=", cap2, newLen, I))
 	if x.mode == ModeBV {
 		x.q.assert(x.cmp("<", cap2, "(_ bv4294967296 64)", I))
+	} else {
+		// no slice is longer than 2^62 elements (address space); append beyond that does not return
+		x.q.assert(implies(reach, x.cmp("<=", newLen, "4611686018427387904", I)))
+		x.q.assert(x.cmp("<=", cap2, ite(x.cmp("<=", newLen, "4611686018427387904", I), "4611686018427387904", newLen), I))
+		x.trusted["append: the result never exceeds 2^62 elements (address-space bound; larger appends do not return)"] = true
 	}
 	// resulting array content
 	arrSort := fmt.Sprintf("(Array %s %s)", x.q.intSort(), x.q.sortOf(et))
@@ -754,6 +774,12 @@ func smallLoopFree(f *ssa.Function) bool {
 // fnWritesOnlyLocal: every write of fn (transitively) to heap h goes through an object allocated inside the function
 // that performs the write.
 func (x *FnExec) fnWritesOnlyLocal(fn *ssa.Function, h string, seen map[*ssa.Function]bool) bool {
+	return x.fnWritesOnlyLocalS(fn, h, seen, false)
+}
+
+// strict: used to discharge `preserves` obligations statically — every reference argument handed to a callee that may
+// write h must itself be a local allocation, unless the callee's own contract preserves h.
+func (x *FnExec) fnWritesOnlyLocalS(fn *ssa.Function, h string, seen map[*ssa.Function]bool, strict bool) bool {
 	if seen[fn] {
 		return true
 	}
@@ -764,6 +790,7 @@ func (x *FnExec) fnWritesOnlyLocal(fn *ssa.Function, h string, seen map[*ssa.Fun
 	var rooted func(v ssa.Value, depth int) bool
 	rooted = func(v ssa.Value, depth int) bool {
 		if depth > 8 {
+			dbgLocal(fn, h, 1)
 			return false
 		}
 		switch a := v.(type) {
@@ -778,6 +805,7 @@ func (x *FnExec) fnWritesOnlyLocal(fn *ssa.Function, h string, seen map[*ssa.Fun
 		case *ssa.MakeInterface:
 			return rooted(a.X, depth+1)
 		}
+		dbgLocal(fn, h, 2)
 		return false
 	}
 	for _, b := range fn.Blocks {
@@ -787,15 +815,18 @@ func (x *FnExec) fnWritesOnlyLocal(fn *ssa.Function, h string, seen map[*ssa.Fun
 			case *ssa.Store:
 				x.addrHeapsOfPointerType(in.Addr.Type(), in.Addr, ws)
 				if ws[h] && !rooted(in.Addr, 0) {
+					dbgLocal(fn, h, 3)
 					return false
 				}
 			case *ssa.MapUpdate:
 				x.writeSetInstrs(fn, []ssa.Instruction{in}, ws, map[*ssa.Function]bool{})
 				if ws[h] && !rooted(in.Map, 0) {
+					dbgLocal(fn, h, 4)
 					return false
 				}
 			case *ssa.MakeClosure:
-				if !x.fnWritesOnlyLocal(in.Fn.(*ssa.Function), h, seen) {
+				if !x.fnWritesOnlyLocalS(in.Fn.(*ssa.Function), h, seen, strict) {
+					dbgLocal(fn, h, 5)
 					return false
 				}
 			case ssa.CallInstruction:
@@ -835,7 +866,11 @@ func (x *FnExec) fnWritesOnlyLocal(fn *ssa.Function, h string, seen map[*ssa.Fun
 							okAll = true
 						}
 					}
+					if strict {
+						okAll = allRefArgsRooted(c.Args, rooted)
+					}
 					if !okAll {
+						dbgLocal(fn, h, 6)
 						return false
 					}
 					continue
@@ -844,17 +879,20 @@ func (x *FnExec) fnWritesOnlyLocal(fn *ssa.Function, h string, seen map[*ssa.Fun
 				case *ssa.Builtin:
 					if callee.Name() == "append" || callee.Name() == "copy" {
 						if !rootedAtLocal(c.Args[0], 0) {
+							dbgLocal(fn, h, 7)
 							return false
 						}
 						continue
 					}
 					if !rooted(c.Args[0], 0) {
+						dbgLocal(fn, h, 8)
 						return false
 					}
 				case *ssa.Function:
-					if x.eng.isRepoFunc(callee) && x.eng.specFor(callee) == nil && x.eng.libModel(callee) == nil {
+					if sp0 := x.eng.specFor(callee); x.eng.isRepoFunc(callee) && (sp0 == nil || sp0.Inline) && x.eng.libModel(callee) == nil {
 						x.eng.ensureBuilt(callee)
-						if !x.fnWritesOnlyLocal(callee, h, seen) {
+						if !x.fnWritesOnlyLocalS(callee, h, seen, strict) {
+							dbgLocal(fn, h, 9)
 							return false
 						}
 						continue
@@ -866,14 +904,49 @@ func (x *FnExec) fnWritesOnlyLocal(fn *ssa.Function, h string, seen map[*ssa.Fun
 							okAll = true
 						}
 					}
+					if strict {
+						okAll = allRefArgsRooted(c.Args, rooted)
+						if sp := x.eng.specFor(callee); sp != nil && !okAll {
+							for _, ph := range x.preservedHeaps(sp, callee) {
+								if ph == h {
+									okAll = true
+								}
+							}
+						}
+					}
 					if !okAll {
+						dbgLocal(fn, h, 10)
 						return false
 					}
 				default:
+					dbgLocal(fn, h, 11)
 					return false
 				}
 			}
 		}
 	}
 	return true
+}
+
+func allRefArgsRooted(args []ssa.Value, rooted func(ssa.Value, int) bool) bool {
+	for _, a := range args {
+		switch a.Type().Underlying().(type) {
+		case *types.Pointer, *types.Slice, *types.Map, *types.Interface, *types.Signature, *types.Chan:
+			if c, ok := a.(*ssa.Const); ok && c.IsNil() {
+				continue
+			}
+			if !rooted(a, 0) {
+				return false
+			}
+		case *types.Struct, *types.Array:
+			return false // may carry references: not analysed
+		}
+	}
+	return true
+}
+
+func dbgLocal(fn *ssa.Function, h string, site int) {
+	if os.Getenv("TVC_DEBUG_LOCAL") != "" {
+		fmt.Fprintf(os.Stderr, "writes-only-local fails: %s heap %s at check %d\n", fn.String(), h, site)
+	}
 }
